@@ -470,6 +470,19 @@ def run(chk):
                            % [c.callee.get("name") for c in cb.calls(normal_only=True)]), [], cb.span
         if not common.has_root(cb.origin(ins[0].args[1]), "param", 2) or not common.has_root(cb.origin(ins[0].args[2]), "param", 3):
             return False, "insert is not (visited key, visited value)", [], ins[0].loc
+        if cb.count_on_paths({ins[0].bb}) != (1, 1):
+            return False, ("open_push writes a pushed property only on some paths (a filter on the key or value at %s): a property the frame "
+                           "was given - e.g. a null that is meant to blank out an ambient value - would not be part of the frame"
+                           % ins[0].loc), [], ins[0].loc
+        # sibling agreement: root and push frames buffer a visited property by the same steps
+        rb_ = P.impl_method(CTXT, TLC, "open_root")
+        rfe = rb_.calls_to(trait="emit_core::props::Props", name="for_each")
+        if len(rfe) == 1 and rb_.origin(rfe[0].args[1])[0] == "agg":
+            rcb = P.body(rb_.origin(rfe[0].args[1])[1]["def"])
+            seq_a = [c.callee.get("name") for c in cb.calls(normal_only=True)]
+            seq_b = [c.callee.get("name") for c in rcb.calls(normal_only=True)]
+            if seq_a != seq_b or len(list(cb.switches())) != len(list(rcb.switches())):
+                return False, "open_root and open_push buffer a visited property by different steps (%s vs %s)" % (seq_b, seq_a), [], cb.span
         mm = [c for c in b.calls(normal_only=True) if c.callee.get("name") == "make_mut"]
         if len(mm) != 1:
             return False, "the snapshot must be made unique with Arc::make_mut before it is written (copy-on-write)", [], b.span
